@@ -333,3 +333,194 @@ def suite_c05(tier, seed, mult):
 
 def suite_c06(tier, seed, mult):
     return suite_mr(tier, seed, mult, "C06")
+
+
+# ------------------------------------------------------------------------------ C14
+class Crash(BaseException):
+    pass
+
+
+class Interposer:
+    """counts the file effects of `bblean.multiround` (buffer-file writes, pickle dumps, renames,
+    unlinks) and raises `Crash` before (or half-way through) the k-th one"""
+
+    def __init__(self, crash_at: int | None, partial: bool):
+        self.k = crash_at
+        self.partial = partial
+        self.n = 0
+        self.trace: list[str] = []
+
+    def hit(self, label: str) -> bool:
+        self.n += 1
+        self.trace.append(label)
+        return self.k is not None and self.n == self.k
+
+    def __enter__(self):
+        self.real_save, self.real_pickle, self.real_os = mr._numpy_streaming_save, mr.pickle, mr.os
+        self.real_unlink = Path.unlink
+        me = self
+
+        def save(fp_list, path):
+            if me.hit(f"npy:{Path(path).name}"):
+                if me.partial:
+                    with open(path, "wb") as f:
+                        f.write(b"\x93NUMPY")
+                raise Crash()
+            return me.real_save(fp_list, path)
+
+        class PickleProxy:
+            def __getattr__(self, k):
+                return getattr(me.real_pickle, k)
+
+            @staticmethod
+            def dump(obj, f, *a, **kw):
+                if me.hit(f"pkl:{Path(f.name).name}"):
+                    if me.partial:
+                        f.write(b"\x80\x04")
+                        f.flush()
+                    raise Crash()
+                return me.real_pickle.dump(obj, f, *a, **kw)
+
+        class OsProxy:
+            def __getattr__(self, k):
+                return getattr(me.real_os, k)
+
+            @staticmethod
+            def replace(a, b):
+                if me.hit(f"rename:{Path(b).name}"):
+                    raise Crash()
+                return me.real_os.replace(a, b)
+
+        def unlink(self_, *a, **kw):
+            if me.hit(f"unlink:{self_.name}"):
+                raise Crash()
+            return me.real_unlink(self_, *a, **kw)
+
+        mr._numpy_streaming_save = save
+        mr.pickle = PickleProxy()
+        mr.os = OsProxy()
+        Path.unlink = unlink
+        return self
+
+    def __exit__(self, *a):
+        mr._numpy_streaming_save, mr.pickle, mr.os = self.real_save, self.real_pickle, self.real_os
+        Path.unlink = self.real_unlink
+        return False
+
+
+def run_crashing(case, inputs, out, k, partial):
+    with Interposer(k, partial) as ip:
+        try:
+            a = run_impl(case, inputs, out, procs=1)
+        except Crash:
+            a = "crash"
+    return a, ip.n, ip.trace
+
+
+def suite_c14(tier: str, seed: int, mult: int) -> SuiteResult:
+    rng = random.Random(seed + 71)
+    res = SuiteResult("S-MR[C14 crash/stale stream]")
+    work = _work()
+    d = Driver()
+    cnt = {"configs": 0, "crash_points": 0, "partial_writes": 0, "reruns": 0, "stale_dirs": 0, "effects_total": 0}
+    try:
+        n_cfg = (4 if tier == "quick" else 25) * mult
+        for ci in range(n_cfg):
+            case = gen_case(rng, small=True)
+            case["cleanup"] = rng.random() < 0.5
+            indir = work / f"in{ci}"
+            indir.mkdir()
+            inputs = write_inputs(case, indir)
+            # variants to re-run with
+            fewer = dict(case, files=case["files"][: max(1, len(case["files"]) - 1)])
+            changed = dict(case, thr=0.3 if case["thr"] != 0.3 else 0.5)
+            reruns = [("same", case, inputs), ("changed-threshold", changed, inputs), ("fewer-files", fewer, inputs[: len(fewer["files"])])]
+            fresh = {}
+            for tag, c2, in2 in reruns:
+                o = work / f"fresh{ci}-{tag}"
+                o.mkdir()
+                a = run_impl(c2, in2, o, procs=1)
+                fresh[tag] = (a, finals(o))
+                # correspondence of the fresh run with the model
+                N = sum(len(f) for f in c2["files"])
+                d.cmd(exp_table_line(N + 2))
+                mans = d.cmd(model_line(c2))
+                iv = ("ok " + show_dir(o)) if a == "ok" else a
+                if mans != iv and res.disagreement is None:
+                    res.disagreement = {"what": "fresh multiround run", "case": c2, "model": mans[:2000], "impl": iv[:2000]}
+                shutil.rmtree(o, ignore_errors=True)
+            cnt["configs"] += 1
+            # (1) stale directory: a completed earlier run with MORE files and cleanup off
+            more = dict(case, cleanup=False, files=case["files"] + [case["files"][0]] * 2)
+            indir2 = work / f"inmore{ci}"
+            indir2.mkdir()
+            inputs_more = write_inputs(more, indir2)
+            for tag, c2, in2 in reruns:
+                o = work / f"stale{ci}-{tag}"
+                o.mkdir()
+                run_impl(more, inputs_more, o, procs=1)
+                (o / "notes.txt").write_text("user file")
+                a = run_impl(c2, in2, o, procs=1)
+                cnt["stale_dirs"] += 1
+                res.evaluations += 1
+                if (a, finals(o)) != fresh[tag]:
+                    res.failures.append({"signature": "C14:leftovers-of-an-earlier-run-were-consumed",
+                                         "what": f"re-run ({tag}) in a directory holding round files of an earlier run differs from a fresh-directory run",
+                                         "case": {"case": c2, "earlier": {k: v for k, v in more.items() if k != "files"}}})
+                    break
+                if c2["cleanup"] and a == "ok" and list(o.glob("round-*")):
+                    res.failures.append({"signature": "C14:round-files-left-after-successful-run-with-cleanup",
+                                         "what": str([p.name for p in o.glob('round-*')][:5]), "case": {"case": c2}})
+                    break
+                if not (o / "notes.txt").exists():
+                    res.failures.append({"signature": "C14:foreign-file-removed", "what": "notes.txt was deleted", "case": {"case": c2}})
+                    break
+                shutil.rmtree(o, ignore_errors=True)
+            if res.failures:
+                break
+            # (2) crash at every file effect, then re-run to completion
+            o = work / f"count{ci}"
+            o.mkdir()
+            _, total, trace = run_crashing(case, inputs, o, None, False)
+            shutil.rmtree(o, ignore_errors=True)
+            cnt["effects_total"] += total
+            ks = list(range(1, total + 1))
+            if tier == "quick" and len(ks) > 12:
+                ks = sorted(rng.sample(ks, 12))
+            for k in ks:
+                partial = rng.random() < 0.5
+                o = work / f"crash{ci}-{k}"
+                o.mkdir()
+                # the directory already holds the finals of an earlier completed run
+                run_impl(changed, inputs, o, procs=1)
+                a, _, tr = run_crashing(case, inputs, o, k, partial)
+                cnt["crash_points"] += 1
+                cnt["partial_writes"] += partial
+                res.evaluations += 1
+                res.nontrivial += 1
+                # (a crash before the run's first effect is a run that never started: k = 1 is exempt)
+                if a == "crash" and k > 1 and (o / "clusters.pkl").exists():
+                    res.failures.append({"signature": "C14:interrupted-run-leaves-a-final-cluster-file",
+                                         "what": f"crash before effect {k} ({tr[-1]}) of {total}: clusters.pkl present",
+                                         "case": {"case": case, "k": k, "effect": tr[-1], "partial": partial}})
+                    break
+                tag, c2, in2 = rng.choice(reruns)
+                a2 = run_impl(c2, in2, o, procs=1)
+                cnt["reruns"] += 1
+                if (a2, finals(o)) != fresh[tag]:
+                    res.failures.append({"signature": "C14:re-run-after-interruption-differs-from-fresh-directory-run",
+                                         "what": f"crash at effect {k} ({tr[-1]}, partial={partial}) then re-run ({tag})",
+                                         "case": {"case": case, "k": k, "effect": tr[-1], "partial": partial, "rerun": tag}})
+                    break
+                if len(res.samples) < 2:
+                    res.samples.append({"config": {kk: v for kk, v in case.items() if kk != "files"}, "crash_at": k,
+                                        "effect": tr[-1], "partial_write": partial, "rerun": tag, "effects_total": total})
+                shutil.rmtree(o, ignore_errors=True)
+            if res.failures:
+                break
+    finally:
+        d.close()
+        shutil.rmtree(work, ignore_errors=True)
+    res.counters = cnt
+    res.failures = res.failures[:1]
+    return res
